@@ -19,11 +19,18 @@ Fragile(doc) ==
     \E d \in 1..Len(doc.dets) : LET its == ItemsOfBody(doc.dets[d].body) IN
         \E k \in 1..Len(its) : \E j \in 1..Len(its[k].vals) : its[k].vals[j].t = "s" /\
             LET p == ParseStr(its[k].vals[j].s) IN \E i \in 1..(Len(p) - 1) : p[i] = CH_BSL /\ NeedsGuard(p[i + 1])
+\* documents that do not come as item trees (harvested from the repository's tests): the strings of their detections
+FragileStrs(o) == \E k \in 1..Len(o.strs) : LET p == ParseStr(o.strs[k]) IN \E i \in 1..(Len(p) - 1) : p[i] = CH_BSL /\ NeedsGuard(p[i + 1])
 SameMeaning(qs1, qs2) ==
     /\ Len(qs1) = Len(qs2)
     /\ \A i \in 1..Len(qs1) :
           \/ qs1[i] = qs2[i]
           \/ LET a == ParseQuery(qs1[i], PREC) b == ParseQuery(qs2[i], PREC) IN a.ok /\ b.ok /\ QEquiv(a.e, b.e)
+\* metadata as printed by a converting backend (o.m1 before, o.m2 after the round trip): <<attribute, text>> pairs
+MetaDiff(o) == {i \in 1..Len(o.m1.out) : i > Len(o.m2.out) \/ o.m2.out[i] # o.m1.out[i]}
+\* recorded deviation: the taxonomy is not written (the repository's tests pin a dict form without it); the reloaded
+\* rule has the default taxonomy
+TaxonomyOnly(o) == \A i \in MetaDiff(o) : o.m1.out[i][1] = "taxonomy" /\ i <= Len(o.m2.out) /\ o.m2.out[i][2] = <<115, 105, 103, 109, 97>>
 Clauses(o) ==
     IF ~o.load.ok THEN <<>>                                       \* not a loadable document: C07's business
     ELSE IF ~o.q1.ok THEN <<>>                                    \* does not convert even before serialising
@@ -33,12 +40,17 @@ Clauses(o) ==
          ELSE <<C("SerialisationOfLoadedObjectFails")>>)
     \* (the misread value may no longer be admissible for the modifier chain - a wildcard under base64 -
     \*  in which case the recorded deviation shows as a Sigma error on reload)
-    ELSE IF ~o.reload.ok THEN (IF o.reload.sigma /\ Fragile(o.doc) THEN <<D("Dev_PlainBackslashBeforeSpecial")>> ELSE <<C("DictNotLoadable")>>)
-    ELSE IF ~o.d2.ok \/ o.d2.out # o.d1.out THEN (IF Fragile(o.doc) THEN <<D("Dev_PlainBackslashBeforeSpecial")>> ELSE <<C("DictStable")>>)
+    ELSE IF ~o.reload.ok THEN (IF o.reload.sigma /\ (Fragile(o.doc) \/ FragileStrs(o)) THEN <<D("Dev_PlainBackslashBeforeSpecial")>> ELSE <<C("DictNotLoadable")>>)
+    ELSE IF ~o.d2.ok \/ o.d2.out # o.d1.out THEN (IF (Fragile(o.doc) \/ FragileStrs(o)) THEN <<D("Dev_PlainBackslashBeforeSpecial")>> ELSE <<C("DictStable")>>)
     ELSE IF ~o.d3.ok \/ o.d3.out # o.d1.out THEN <<C("DictStable:yaml")>>
     ELSE IF ~o.q2.ok THEN <<C("QueriesStable:reloaded-rule-fails")>>
-    ELSE IF SameMeaning(o.q1.out, o.q2.out) THEN <<>>
-    ELSE IF Fragile(o.doc) THEN <<D("Dev_PlainBackslashBeforeSpecial")>>
+    ELSE IF SameMeaning(o.q1.out, o.q2.out) THEN
+        (IF ~o.m1.ok THEN <<>>
+         ELSE IF ~o.m2.ok THEN <<C("MetadataStable:reloaded-rule-fails")>>
+         ELSE IF MetaDiff(o) = {} THEN <<>>
+         ELSE IF TaxonomyOnly(o) THEN <<D("Dev_TaxonomyNotWritten")>>
+         ELSE LET i == CHOOSE j \in MetaDiff(o) : o.m1.out[j][1] # "taxonomy" IN <<C("MetadataStable:" \o o.m1.out[i][1])>>)
+    ELSE IF (Fragile(o.doc) \/ FragileStrs(o)) THEN <<D("Dev_PlainBackslashBeforeSpecial")>>
     ELSE IF o.kind = "transformed" THEN <<C("FailsRatherThanLies")>>
     ELSE <<C("QueriesStable")>>
 Verdict(o) ==
